@@ -39,6 +39,10 @@ import (
 // from the context.
 var ErrNoContext = errors.New("no endorse context found")
 
+// ErrNoVersionControl is returned when an endorsement is to be submitted but the endorse.Context
+// names no version control back end to submit it to.
+var ErrNoVersionControl = errors.New("no version control back end to submit the endorsement to")
+
 // Context encapsulates all information needed to generate an endorsement for a UEFI
 // binary.
 type Context struct {
@@ -233,6 +237,9 @@ func VirtualFirmware(ctx context.Context) error {
 
 	if ec.VCS != nil && len(ec.VCSs) == 0 {
 		ec.VCSs = append(ec.VCSs, ec.VCS)
+	}
+	if len(ec.VCSs) == 0 {
+		return ErrNoVersionControl
 	}
 	for _, vcs := range ec.VCSs {
 		ec.VCS = vcs
